@@ -141,3 +141,75 @@ Print Assumptions C09_subscription_origin.
 Print Assumptions C09_idle_complete.
 Print Assumptions C09_eventual_partial.
 Print Assumptions C09_stream_break_refuted.
+
+(** ---- Bridge to the storage layer (C03): the history snapshot IS the storage scan -------------------------
+    The model reads history through "the key's events from the start position up to the end of the snapshot
+    taken when the iterator was created": [mk_iter c st k from] = positions [from .. length (klog c st k)) of
+    [klog c st k].  Proofs/BridgeSubsProofs.v shows that this is exactly what the storage iterator of
+    Model/StoreIter.v returns — [scan_events] of [scan s k from Fwd limit], C03's subject — on every reachable
+    store [run ops] (any history of appends with any rollover decisions, syncs, reopens, crashes), for every key,
+    start position and batch limit.  [bs_sev] maps a stored event to the four fields the subscription model keeps
+    (N -> nat), [bs_key] a model key to the storage key, [bs_plog s p] is partition p of the store as the
+    subscription model sees it; the hypothesis on [st] is that its log of the key's partition is the store's.
+    For a stream key the stream's events must lie in the partition the model looks the stream up in
+    ([bs_key_routed]: the cluster's routing, partition id = f(partition key); without it the statement is false:
+    C09_history_unrouted_refuted). *)
+From Coq Require Import NArith.
+From SV Require Model.StoreIter Proofs.StoreSimProofs Proofs.BridgeReadProofs.
+From SV Require Import Proofs.BridgeSubsProofs.
+
+Theorem C09_history_is_storage_scan : forall c st ops k from limit,
+  Forall StoreSimProofs.wf_op ops -> 0 < limit ->
+  sb_log st (kpid c k) = bs_plog (Store.run ops) (kpid c k) -> bs_key_routed c (Store.run ops) k ->
+  exists batches, StoreIter.scan (Store.run ops) (bs_key k) (N.of_nat from) StoreIter.Fwd limit = Some batches /\
+    let it := mk_iter c st k from in
+    (* the events between the iterator's position and the end of its snapshot *)
+    slice (klog c st k) (h_pos it) (h_end it) = map bs_sev (StoreIter.scan_events batches) /\
+    (* the i-th event the history reader takes from the iterator (OHistEvent) is the i-th event of the scan *)
+    (forall i, nth_error (klog c st k) (h_pos it + i) = nth_error (map bs_sev (StoreIter.scan_events batches)) i).
+Proof. exact run_history_is_storage_scan. Qed.
+
+(** a routed history whose routing agrees with the model's [spid] satisfies [bs_key_routed] for every key *)
+Theorem C09_history_routed_key : forall c f ops k,
+  Forall StoreSimProofs.wf_op ops -> BridgeReadProofs.br_routed f ops ->
+  (forall e, In e (StoreSpec.all_events (Store.abs_visible (Store.run ops))) ->
+             f (StoreSpec.e_pk e) = N.of_nat (spid c (N.to_nat (StoreSpec.e_sid e)))) ->
+  bs_key_routed c (Store.run ops) k.
+Proof. exact bs_routed_key. Qed.
+
+Theorem C09_history_unrouted_refuted :
+  let c := mkSbCfg 2 8 4 true in
+  let st := mkSb (bs_plog (Store.run BridgeReadProofs.br_unrouted_ops)) (fun _ => 0) (fun _ => 0) false None in
+  Forall StoreSimProofs.wf_op BridgeReadProofs.br_unrouted_ops /\
+  exists batches, StoreIter.scan (Store.run BridgeReadProofs.br_unrouted_ops) (bs_key (KS 7)) 0%N StoreIter.Fwd 5 = Some batches /\
+    length (klog c st (KS 7)) = 1 /\ length (StoreIter.scan_events batches) = 2.
+Proof. exact bs_unrouted_history_refuted. Qed.
+
+(* non-vacuity: a store with two sealed segments and a live one, seen as a subscription log *)
+Example C09_example_history :
+  Forall StoreSimProofs.wf_op bs_ex_ops /\
+  bs_key_routed bs_ex_cfg (Store.run bs_ex_ops) (KS 7) /\
+  (let it := mk_iter bs_ex_cfg bs_ex_state (KP 0) 4 in
+   map e_seq (slice (klog bs_ex_cfg bs_ex_state (KP 0)) (h_pos it) (h_end it)) = [4; 5; 6; 7; 8]) /\
+  (let it := mk_iter bs_ex_cfg bs_ex_state (KS 7) 2 in
+   map (fun e => (e_ver e, e_seq e)) (slice (klog bs_ex_cfg bs_ex_state (KS 7)) (h_pos it) (h_end it))
+   = [(2, 3); (3, 5); (4, 6); (5, 7)]).
+Proof. exact bs_example. Qed.
+
+Print Assumptions C09_history_is_storage_scan.
+Print Assumptions C09_history_routed_key.
+Print Assumptions C09_history_unrouted_refuted.
+
+(** the store's partitions satisfy the log invariant [lwf] the subscription proofs maintain for [sb_log]
+    (Proofs/SubscriptionProofs.v: the i-th event of partition p's log has partition p, sequence i, version = its
+    rank within its stream, and its stream is one of partition p's), for every reachable store whose events sit
+    in the partition the model derives from the stream ([spid]) — so the hypothesis [sb_log st p = bs_plog s p]
+    of C09_history_is_storage_scan is consistent with every invariant the C09 theorems rest on *)
+Theorem C09_storage_log_wf : forall c ops p,
+  Forall StoreSimProofs.wf_op ops ->
+  (forall e, In e (StoreSpec.all_events (Store.abs_visible (Store.run ops))) ->
+             StoreSpec.e_pid e = N.of_nat (spid c (N.to_nat (StoreSpec.e_sid e)))) ->
+  lwf c p (bs_plog (Store.run ops) p).
+Proof. exact run_bs_plog_lwf. Qed.
+
+Print Assumptions C09_storage_log_wf.
